@@ -51,11 +51,11 @@ theorem mean_over_crit_is_Om (hD : ρ "p.overdensity" ≠ 0) (hc : rc opq ρ ≠
 theorem SOVirial_density_value (hO : om opq ρ ≠ 0) :
     evalR opq ρ Gen.Mdef.SOVirial_halo_density =
       (18 * π ^ 2 + 82 * (om opq ρ - 1) - 39 * (om opq ρ - 1) ^ 2) * rc opq ρ := by
-  simp only [Gen.Mdef.SOVirial_halo_density, rc, om] at *; expr_unfold; push_cast; norm_num; field_simp
+  simp only [Gen.Mdef.SOVirial_halo_density, rc, om] at *; expr_unfold <;> first | (push_cast; norm_num; done) | (push_cast; norm_num; ring_nf; done) | (push_cast; norm_num; field_simp; done) | (push_cast; norm_num; field_simp; ring_nf; done) | expr_finish
 /-- C16: the FoF one is 9/(2π b³) × mean -/
 theorem FOF_density_value : evalR opq ρ Gen.Mdef.FOF_halo_density =
     9 / (2 * π * ρ "p.linking_length" ^ 3) * (om opq ρ * rc opq ρ) := by
-  simp only [Gen.Mdef.FOF_halo_density, rc, om]; expr_unfold; push_cast; norm_num
+  simp only [Gen.Mdef.FOF_halo_density, rc, om]; expr_unfold <;> first | (push_cast; norm_num; done) | (push_cast; norm_num; ring_nf; done) | (push_cast; norm_num; field_simp; done) | (push_cast; norm_num; field_simp; ring_nf; done) | expr_finish
 /-- the reported overdensities: SOMean w.r.t. mean is D, SOCritical w.r.t. critical is D -/
 theorem SOMean_overdensity_mean (hO : opq "cosmo.Om" (ρ "z") ≠ 0) (hc : opq "cosmo.critical_density" (ρ "z") ≠ 0)
     (hh : ρ "cosmo.h" ≠ 0) (hu : ρ "unitconv:u.Msun / u.Mpc ** 3" ≠ 0) :
@@ -96,13 +96,13 @@ theorem SOMean_roundtrip (opq : String → ℝ → ℝ) (ρ : String → ℝ)
     (hd : 0 < ρ "p.overdensity" * (om opq ρ * rc opq ρ)) (hr : 0 ≤ ρ "r") :
     evalR opq (Function.update ρ "m" (evalR opq ρ Gen.Mdef.SOMean_r_to_m)) Gen.Mdef.SOMean_m_to_r = ρ "r" := by
   have h1 : evalR opq ρ Gen.Mdef.SOMean_r_to_m = 4 * π * ρ "r" ^ 3 * (ρ "p.overdensity" * (om opq ρ * rc opq ρ)) / 3 := by
-    simp only [Gen.Mdef.SOMean_r_to_m, rc, om]; expr_unfold; push_cast; norm_num
+    simp only [Gen.Mdef.SOMean_r_to_m, rc, om]; expr_unfold <;> first | (push_cast; norm_num; done) | (push_cast; norm_num; ring_nf; done) | (push_cast; norm_num; field_simp; done) | (push_cast; norm_num; field_simp; ring_nf; done) | expr_finish
   have h2 : ∀ mval, evalR opq (Function.update ρ "m" mval) Gen.Mdef.SOMean_m_to_r =
       (3 * mval / (4 * π * (ρ "p.overdensity" * (om opq ρ * rc opq ρ)))) ^ ((1:ℝ) / 3) := by
     intro mval
     simp only [Gen.Mdef.SOMean_m_to_r, rc, om]; expr_unfold; push_cast
     simp only [Function.update_apply, String.reduceEq, if_false, if_true]
-    norm_num
+    first | (norm_num; done) | (norm_num; ring_nf; done) | expr_finish
   rw [h2, h1]
   exact m_to_r_of_r_to_m _ _ hd hr
 
